@@ -79,7 +79,9 @@ def case_s(draw, kinds=("tcp-lines", "unix-lines", "server", "tcp-lines", "unix-
     outer = draw(st.one_of(st.just([]), st.lists(st.booleans(), min_size=len(reads), max_size=len(reads))))
     return {"kind": kind, "msgs": msgs, "cuts": cuts, "gaps": gaps, "reads": reads, "eof_gap": eof_gap, "wblock": wblock, "partial": partial, "outer": outer,
             "idle_peer": draw(st.sampled_from([0, 0, 0, 1, 2])) if kind not in ("server", "server2") else 0,
-            "stuck_peer": kind == "server2" and draw(st.booleans())}
+            "stuck_peer": kind == "server2" and draw(st.booleans()),
+            "roundtrip": draw(st.one_of(st.none(), st.none(), st.tuples(st.sampled_from([0.0, 0.3001, 0.7001]), st.sampled_from([0.2, 0.6, 0.9, 1.3])).map(list)))
+            if kind not in ("server", "server2") else None}
 
 
 def f_reply(req: bytes, idx: int) -> bytes | None:
@@ -175,12 +177,15 @@ class BPWriter(MemWriter):
     """MemWriter whose drain() can be made to block (a peer that does not read: the stream is above its high-water mark)."""
 
     blocked = False
+    delay = 0.0        # seconds a drain() takes (a peer that reads slowly)
     slow_close = 0.0   # seconds the peer needs to take the backlog off the connection once it is being closed
     aborted = False
 
     async def drain(self) -> None:
         if self.blocked:
             await asyncio.sleep(3600)
+        if self.delay:
+            await asyncio.sleep(self.delay)
         await super().drain()
 
     async def wait_closed(self) -> None:
@@ -248,6 +253,26 @@ def check(case: dict[str, Any]) -> list[tuple[str, str]]:
                 await idle_task
             except BaseException:  # noqa: BLE001
                 pass
+        rt = case.get("roundtrip")
+        if rt:
+            # request_unsafe() = write() then read(), each with the timeout: a reply that arrives within the timeout after the
+            # request has been handed over is the result, however long the hand-over took
+            d_, frac = rt
+            T_ = 1.0
+            r2, w2 = asyncio.StreamReader(limit=2**16), BPWriter()
+            w2.delay = d_
+            tr2 = _make_transport(kind, r2, w2)
+            reply = bytes(reversed(case["msgs"][0])) + b"\x01"
+            loop.call_later(d_ + frac * T_, r2.feed_data, hexlify(reply) + b"\n")
+            try:
+                got_ = await tr2.request_unsafe(case["msgs"][0], timeout=T_)
+            except Exception as e:  # noqa: BLE001
+                got_ = f"{type(e).__name__}: {e}"
+            want_ = reply if frac < 1.0 else None
+            if want_ is not None and got_ != want_:
+                out.append((f"C19/{kind}/request/reply-within-timeout-lost", f"hand-over took {d_} s, reply {frac} s after it, timeout {T_} s: {got_ if isinstance(got_, str) else got_.hex()[:40]}"))
+            if want_ is None and not (isinstance(got_, str) and got_.startswith("TimeoutError")):
+                out.append((f"C19/{kind}/request/no-timeout", f"hand-over took {d_} s, reply {frac} s after it, timeout {T_} s: {got_ if isinstance(got_, str) else got_.hex()[:40]}"))
         # write side: exactly hexlify(m)+LF per write; a write that times out under back-pressure may or may not have queued its
         # line, but the peer must only ever see complete lines of messages that were written, in order
         wblock = list(case.get("wblock") or [])
